@@ -237,6 +237,11 @@ def table_bytes(st, d, legacy):
     key = ('table_bytes', t.get_id())
     if key not in st.facts_done:
         st.facts_done.add(key)
+        for prev in getattr(st, 'table_terms', []):
+            if not prev.eq(t) and st.must(prev == t):
+                st.refine_chunk(c, [st.new_chunk(term=prev)])     # the same octets as a table seen before
+                return SBytes([c])
+        st.table_terms = getattr(st, 'table_terms', []) + [t]
         ls = [st.new_byte('tlen') for _ in range(4)]
         body = st.new_chunk('tbody')
         st.refine_chunk(c, ls + [body])
@@ -414,6 +419,8 @@ def args_parse(st, fields, data):
             if a is None:
                 return None
             ts = sym.I(uint(a))
+            # A5 (library contract): datetime.fromtimestamp represents every instant up to 9999-12-31T23:59:59Z
+            st.assume(z3.Implies(z3.And(ts >= 0, ts <= 253402300799), dt_representable(ts)))
             conds.append(dt_representable(ts))
             values[name] = sym.SOpaque('datetime_aware', z3.If(ts <= 0xFFFFFFFF, dt_of_seconds(ts), dt_of_millis(ts)))
             advance(8)
@@ -453,6 +460,26 @@ def props_flags(present, bits):
     return mk_int(z3.Sum([z3.IntVal(total)] + terms))
 
 
+def field_len(st, wire_type, v, legacy):
+    """Length of field_bytes(...) as a term, without building the octets."""
+    if v is None:
+        return 0
+    if wire_type in INT_RANGES:
+        return INT_RANGES[wire_type][2]
+    if wire_type == 'timestamp':
+        return 8
+    if wire_type in ('shortstr', 'longstr') and sym.is_strlike(v):
+        k = 1 if wire_type == 'shortstr' else 4
+        if isinstance(v, str):
+            return k + len(v.encode('utf-8', 'surrogatepass'))
+        return k + sym.blen(sym.utf8(st.str_term(v)))
+    if wire_type == 'table' and isinstance(v, sym.SOpaque):
+        return z3.If(_nonempty(v), sym.blen(enc_table(v.t, sym.B(legacy))), 4)
+    if wire_type == 'table' and isinstance(v, dict) and not v:
+        return 4
+    return None
+
+
 def props_chunks(st, ident, present, types, values, legacy, first=0, last=None):
     """One conditional chunk per property: its encoding when present, nothing otherwise."""
     out = []
@@ -460,9 +487,40 @@ def props_chunks(st, ident, present, types, values, legacy, first=0, last=None):
         if j < first or (last is not None and j >= last):
             continue
         out.append(st.cond_chunk(prop_chunk(z3.IntVal(j), ident), p if isinstance(p, bool) else sym.B(p),
-                                 (lambda t=t, v=v: field_bytes(st, t, v, legacy))))
+                                 (lambda t=t, v=v: field_bytes(st, t, v, legacy)), length=field_len(st, t, v, legacy)))
     return out
 
 
+def props_flag_octets(st, present, bits):
+    """The flag word as two octets defined bit by bit (bit 0, the continuation bit, and the unused bit 1 are clear)."""
+    from pyvc.dsl import _t
+    word = [False] * 16
+    for p, bit in zip(present, bits):
+        word[bit] = _t(p)
+    return [st.byte_from_bits(word[8:16], 'flags_hi'), st.byte_from_bits(word[0:8], 'flags_lo')]
+
+
 def props_wire(st, ident, present, bits, types, values, legacy):
-    return cat(st, be(st, 2, props_flags(present, bits)), SBytes(props_chunks(st, ident, present, types, values, legacy)))
+    return cat(st, st.mk_bytes(props_flag_octets(st, present, bits)),
+               SBytes(props_chunks(st, ident, present, types, values, legacy)))
+
+
+NORM_AXIOMS = ('norm_value preserves emptiness and encodability of a table and enc_table(norm_value(d)) == enc_table(d); '
+               'dt_seconds(dt_of_seconds(s)) == s  (Enc(Norm(v)) == Enc(v): decided in the C03 cone / library contract A5)')
+
+
+def norm_table(st, d, legacy):
+    """norm_value(d) as a dict value, with the C03 facts about it."""
+    from pyvc.contract import obj_nonempty
+    n = norm_value(d.t)
+    lg = sym.B(legacy)
+    st.assume(z3.And(obj_nonempty(n) == obj_nonempty(d.t), table_encodable(n, lg) == table_encodable(d.t, lg),
+                     enc_table(n, lg) == enc_table(d.t, lg)))
+    return sym.SOpaque('dict', n, {'truthy': obj_nonempty(n)})
+
+
+def norm_time(st, v):
+    s = dt_seconds(v.t)
+    n = dt_of_seconds(s)
+    st.assume(dt_seconds(n) == s)
+    return sym.SOpaque('datetime_aware', n)
